@@ -65,6 +65,10 @@ def step (st : St) (opS obsS : String) : St × List String × String := Id.run d
     | _ =>
       return ({ st with p := { st.p with stats := stats } }, [failLine st "bad-line" opS obsS], "bad-line")
   | _ =>
+    if obs = ["stuck"] then
+      -- a sequential call that never returned (watchdog)
+      let p := { st.p with stats := ((st.p.stats.bump "ops").bump "propfail") }
+      return ({ st with p := p }, [failLine st "no-call-blocks-forever" opS obsS], "")
     let (p, model) := Firefly.Replay.Pmm.step { st.p with fails := [] } opS obsS
     return ({ st with p := { p with fails := [] } }, p.fails, model)
 
